@@ -384,6 +384,12 @@ def optimize_circuit(seq):
                         # todo treat it as a failed merge for now
                         i += 1
                         continue
+                    if a.op.measurement_deps or b.op.measurement_deps:
+                        # an operation that depends on a measurement result also sits on the
+                        # wire of the measured subsystem, where it would be left behind (or
+                        # merged a second time): treat it as a failed merge
+                        i += 1
+                        continue
                     op = a.op.merge(b.op)
                     # merge was successful, delete the old ops
                     del q[i : i + 2]
